@@ -1160,29 +1160,42 @@ def finalSegType : Bytes → Option Nat → Option Nat
 termination_by bs => bs.length
 decreasing_by simp only [List.length_drop, List.length_cons]; omega
 
-/-- `RpkiTable::validate` for an IPv4 route inserted by AddPath (source = `Source::local()`, whose
-    `local_asn` is 0) against a non-empty IPv4 VRP table; `none` = no validation shown -/
+/-- the speaker's AS: `RpkiTable.local_asn`, set by `start_bgp` through `TableManager::rpki_set_local_asn`
+    (the harness starts BGP with AS 65000) -/
+def localAs : Nat := 65000
+
+/-- route origin AS in `RpkiTable::validate` for a path of the local source (AddPath): the last AS of a final
+    AS_SEQUENCE, NONE for a final AS_SET, else the speaker's AS -/
+def rpkiOrigin (stored : List Attribute) : Out (Option Nat) :=
+  match findCode 2 stored with
+  | some p => do
+      let o ← asPathOrigin p
+      match o with
+      | some asn => pure (some asn)
+      | none =>
+          let b ← unwrapO p.binary
+          pure (if finalSegType b none = some 1 then none else some localAs)
+  | none => pure (some localAs)
+
+/-- the state for a route `a/m` with origin `origin` given the IPv4 VRPs `vrps` -/
+def rpkiState (vrps : List Vrp) (a m : Nat) (origin : Option Nat) : RState :=
+  let cand := vrps.filter fun v => v.len ≤ m ∧ a / 2 ^ (32 - v.len) = v.addr / 2 ^ (32 - v.len)
+  let matched := cand.any fun v => m ≤ v.maxLen ∧ v.asn ≠ 0 ∧ some v.asn = origin
+  let unAsn := cand.any fun v => m ≤ v.maxLen ∧ ¬ (v.asn ≠ 0 ∧ some v.asn = origin)
+  let unLen := cand.any fun v => ¬ m ≤ v.maxLen
+  if matched then .valid else if unAsn then .invalidAsn else if unLen then .invalidLen else .notFound
+
+/-- `RpkiTable::validate` for a route inserted by AddPath: every IPv4 / IPv6 route gets a state (NotFound
+    when no VRP covers it, also while no VRP is installed at all); the other families get none.  The
+    harness installs IPv4 VRPs only, so the IPv6 VRP table is empty. -/
 def rpkiShown (vrps : List Vrp) (n : Nlri) (stored : List Attribute) : Out (Option RState) :=
   match n with
-  | .v4 a m =>
-      if vrps.isEmpty then .ok none
-      else do
-        let origin : Option Nat ←
-          (match findCode 2 stored with
-           | some p => do
-               let o ← asPathOrigin p
-               match o with
-               | some asn => pure (some asn)
-               | none =>
-                   let b ← unwrapO p.binary
-                   pure (if finalSegType b none = some 1 then none else some 0)
-           | none => pure (some 0))
-        let cand := vrps.filter fun v => v.len ≤ m ∧ a / 2 ^ (32 - v.len) = v.addr / 2 ^ (32 - v.len)
-        let matched := cand.any fun v => m ≤ v.maxLen ∧ v.asn ≠ 0 ∧ some v.asn = origin
-        let unAsn := cand.any fun v => m ≤ v.maxLen ∧ ¬ (v.asn ≠ 0 ∧ some v.asn = origin)
-        let unLen := cand.any fun v => ¬ m ≤ v.maxLen
-        pure (some (if matched then .valid else if unAsn then .invalidAsn else if unLen then .invalidLen
-                    else .notFound))
+  | .v4 a m => do
+      let origin ← rpkiOrigin stored
+      pure (some (rpkiState vrps a m origin))
+  | .v6 a m => do
+      let origin ← rpkiOrigin stored
+      pure (some (rpkiState [] a m origin))
   | _ => .ok none
 
 /-! ## cases and observations -/
